@@ -32,7 +32,7 @@ def generate(seed, tier):
     rng = stream(seed, "c08")
     cap = 10 if tier == "thorough" and rng.random() < 0.3 else 8
     while True:
-        spec = gen_instance(rng, max_jobs=4 if cap == 10 else 3, max_machines=3, max_ops=4, positive=True, degenerate=False,
+        spec = gen_instance(rng, huge=0.05, max_jobs=4 if cap == 10 else 3, max_machines=3, max_ops=4, positive=True, degenerate=False,
                             min_jobs=2 if rng.random() < 0.9 else 1)
         if n_ops(spec) <= cap:
             break
